@@ -1,7 +1,8 @@
 package harness
 
 // C09 trace emission: which MTPs appeared / changed / disappeared in a step (from the MTP store before
-// and after) as PNew / PDelta / PDel operations, and the perpetual pool's recorded aggregates + counter.
+// and after) as PNew / PDelta / PDel operations, and every perpetual pool's recorded aggregates + the module's counter.
+// A field is 12 * (pool slot) + 6 * side + 3 * asset + kind: an MTP moves only the fields of its own pool.
 
 import (
 	"fmt"
@@ -25,22 +26,34 @@ func newC09Tracer(x *lRun) *c09Tracer {
 	return &c09Tracer{x: x, ids: map[string]int{}, prev: map[string]perptypes.MTP{}}
 }
 
+// asset index inside a pool: 0 the base currency, 1 the pool's trading asset
 func c09Asset(d string) int {
-	if d == ATOM {
+	if d == ATOM || d == WETH {
 		return 1
 	}
 	return 0
 }
 
-func c09Field(side perptypes.Position, denom string, kind int) int {
+const c09NFields = 24
+
+// pool slot: 0 the oracle pool uusdc/uatom, 1 the second oracle pool uusdc/aweth
+func c09Slot(mk *Market, pool uint64) int {
+	if mk.OraclePool2 != 0 && pool == mk.OraclePool2 {
+		return 1
+	}
+	return 0
+}
+
+func c09Field(slot int, side perptypes.Position, denom string, kind int) int {
 	s := 0
 	if side == perptypes.Position_SHORT {
 		s = 1
 	}
-	return s*6 + c09Asset(denom)*3 + kind
+	return slot*12 + s*6 + c09Asset(denom)*3 + kind
 }
 
-func c09Fields(m perptypes.MTP) map[int]sdkmath.Int {
+func c09Fields(mk *Market, m perptypes.MTP) map[int]sdkmath.Int {
+	slot := c09Slot(mk, m.AmmPoolId)
 	out := map[int]sdkmath.Int{}
 	add := func(f int, v sdkmath.Int) {
 		if cur, ok := out[f]; ok {
@@ -49,9 +62,9 @@ func c09Fields(m perptypes.MTP) map[int]sdkmath.Int {
 			out[f] = v
 		}
 	}
-	add(c09Field(m.Position, m.LiabilitiesAsset, 0), m.Liabilities)
-	add(c09Field(m.Position, m.CustodyAsset, 1), m.Custody)
-	add(c09Field(m.Position, m.CollateralAsset, 2), m.Collateral)
+	add(c09Field(slot, m.Position, m.LiabilitiesAsset, 0), m.Liabilities)
+	add(c09Field(slot, m.Position, m.CustodyAsset, 1), m.Custody)
+	add(c09Field(slot, m.Position, m.CollateralAsset, 2), m.Collateral)
 	return out
 }
 
@@ -86,16 +99,16 @@ func (c *c09Tracer) step() {
 		after, has := cur[k]
 		bf, af := map[int]sdkmath.Int{}, map[int]sdkmath.Int{}
 		if had {
-			bf = c09Fields(before)
+			bf = c09Fields(c.x.m, before)
 		}
 		if has {
-			af = c09Fields(after)
+			af = c09Fields(c.x.m, after)
 		}
 		if !had {
 			ops = append(ops, fmt.Sprintf("PNew %d", c.id(k)))
 			c.news++
 		}
-		for f := 0; f < 12; f++ {
+		for f := 0; f < c09NFields; f++ {
 			b, a := sdkmath.ZeroInt(), sdkmath.ZeroInt()
 			if v, ok := bf[f]; ok {
 				b = v
@@ -112,16 +125,17 @@ func (c *c09Tracer) step() {
 			c.dels++
 		}
 	}
-	aggs := make([]string, 12)
+	aggs := make([]string, c09NFields)
 	for i := range aggs {
 		aggs[i] = "0"
 	}
 	for _, pp := range w.App.PerpetualKeeper.GetAllPools(ctx) {
 		for side, assets := range map[perptypes.Position][]perptypes.PoolAsset{perptypes.Position_LONG: pp.PoolAssetsLong, perptypes.Position_SHORT: pp.PoolAssetsShort} {
 			for _, a := range assets {
-				aggs[c09Field(side, a.AssetDenom, 0)] = zstr(a.Liabilities.BigInt())
-				aggs[c09Field(side, a.AssetDenom, 1)] = zstr(a.Custody.BigInt())
-				aggs[c09Field(side, a.AssetDenom, 2)] = zstr(a.Collateral.BigInt())
+				slot := c09Slot(c.x.m, pp.AmmPoolId)
+				aggs[c09Field(slot, side, a.AssetDenom, 0)] = zstr(a.Liabilities.BigInt())
+				aggs[c09Field(slot, side, a.AssetDenom, 1)] = zstr(a.Custody.BigInt())
+				aggs[c09Field(slot, side, a.AssetDenom, 2)] = zstr(a.Collateral.BigInt())
 			}
 		}
 	}
